@@ -220,7 +220,34 @@ func stat(what string, outs [][]byte, from int) string {
 	return ""
 }
 
+// varying counts the byte positions at or after from that are not constant over outs.
+func varying(outs [][]byte, from int) int {
+	if len(outs) == 0 {
+		return 0
+	}
+	minLen := len(outs[0])
+	for _, o := range outs {
+		if len(o) < minLen {
+			minLen = len(o)
+		}
+	}
+	v := 0
+	for p := from; p < minLen; p++ {
+		for _, o := range outs[1:] {
+			if o[p] != outs[0][p] {
+				v++
+				break
+			}
+		}
+	}
+	return v
+}
+
 const directN = 16
+
+// directVarying: per operation, the number of varying byte positions seen in
+// the random field over directN calls with the operating system's randomness.
+var directVarying = map[string]int{}
 
 var directDone = map[string]string{}
 
@@ -241,14 +268,14 @@ func direct(f []string) string {
 			return v
 		}
 	}
-	v := direct1(f)
+	v := direct1(f, key)
 	if key != "" {
 		directDone[key] = v
 	}
 	return v
 }
 
-func direct1(f []string) string {
+func direct1(f []string, key string) string {
 	pl := func(v string) int {
 		if v == "R" {
 			return 0
@@ -261,24 +288,28 @@ func direct1(f []string) string {
 		if err != nil {
 			return "direct: " + err.Error()
 		}
+		directVarying[key] = varying(outs, pl(f[3]))
 		return stat("Encrypt "+f[2], outs, pl(f[3]))
 	case "STR":
 		outs, err := strOutputs(f[2], directN, nil)
 		if err != nil {
 			return "direct: " + err.Error()
 		}
+		directVarying[key] = varying(outs, 1)
 		return stat("NewEncryptingWriter "+f[2], outs, 1)
 	case "HPKE":
 		outs, err := hpkeOutputs(f[2], f[3], idOf(f[4]), directN, nil)
 		if err != nil {
 			return "direct: " + err.Error()
 		}
+		directVarying[key] = varying(outs, pl(f[3]))
 		return stat("HPKE Encrypt "+f[2], outs, pl(f[3]))
 	case "ECIES":
 		outs, err := eciesOutputs(f[2], f[3], idOf(f[4]), directN, nil)
 		if err != nil {
 			return "direct: " + err.Error()
 		}
+		directVarying[key] = varying(outs, pl(f[3]))
 		return stat("ECIES Encrypt "+f[2], outs, pl(f[3]))
 	case "MGR", "NEWH":
 		var specs []string
@@ -355,6 +386,7 @@ func directKeys(specv string) string {
 	if res != "" {
 		return res
 	}
+	directVarying["KEY|"+specv] = varying(ids, 0) + varying(mats, 0)
 	if v := stat("key ids of one manager ("+specv+")", ids, 0); v != "" {
 		return v
 	}
@@ -387,6 +419,37 @@ func check(in, obs string) string {
 					return "manager handed out key id " + id + " twice (or an id already in the keyset)"
 				}
 				seen[id] = true
+			}
+		case "ENC", "STR", "HPKE", "ECIES":
+			// entropy accounting: the random field cannot have more varying
+			// bytes than the call drew fresh bytes from the reader
+			if v := direct(f); v != "" {
+				return v
+			}
+			key := f[1] + "|" + f[2]
+			k := atoi(f[3])
+			if f[1] != "STR" {
+				key += "|" + f[3]
+				k = atoi(f[5])
+			}
+			drawn := 0
+			for _, sz := range strings.Split(strings.TrimPrefix(parts[0], "r="), ",") {
+				drawn += atoi(sz)
+			}
+			if vb, ok := directVarying[key]; ok && k > 0 && vb*k > drawn {
+				return fmt.Sprintf("%s %s: the random field has %d varying bytes per call but only %d fresh bytes were drawn from crypto/rand in %d calls (part of the field is not fresh randomness)", f[1], f[2], vb, drawn, k)
+			}
+		case "NEWH":
+			if v := direct(f); v != "" {
+				return v
+			}
+			drawn := 0
+			for _, sz := range strings.Split(strings.TrimPrefix(parts[0], "r="), ",") {
+				drawn += atoi(sz)
+			}
+			k := atoi(f[4])
+			if vb, ok := directVarying["KEY|"+f[2]+"/"+f[3]]; ok && k > 0 && vb*k > drawn && !strings.Contains(parts[1], "err") {
+				return fmt.Sprintf("NewHandle %s: key id and material have %d varying bytes per key but only %d fresh bytes were drawn from crypto/rand for %d keys", f[2], vb, drawn, k)
 			}
 		case "SIGN", "LOOSE":
 			if strings.Contains(parts[1], "distinct=no") {
